@@ -125,6 +125,37 @@ def tool_matrix(full, sel):
     return base + [ext[sel % len(ext)], ext[(sel * 7 + 3) % len(ext)]]
 
 
+# ------------------------------------------------------------------ line lengths around buffer capacities (E12)
+LL_LENGTHS = list(range(1010, 1032)) + list(range(1140, 1160)) + list(range(2040, 2052)) + [254, 255, 256, 257, 4095, 4096, 4097]
+LL_SHAPES = ["plain", "macro", "irp", "rept", "macro-tabs", "call", "comment", "string"]
+
+
+def longline_source(n, shape):
+    """A source whose interesting line is exactly n characters long (before any tab expansion)."""
+    def line(tail, lead="\tdb ", tabs=False):
+        body = lead + "1," * 100
+        pad = n - len(body) - len(tail)
+        if pad < 0:
+            body = lead
+            pad = n - len(body) - len(tail)
+        return body + (("\t" * (pad // 2) + " " * (pad - pad // 2)) if tabs else " " * pad) + tail
+    if shape == "plain":
+        return "\tcpu z80\n%s\n" % line("7")
+    if shape == "macro":
+        return "\tcpu z80\nm\tmacro pp\n%s\n\tendm\n\tm 5+10\n" % line("pp")
+    if shape == "macro-tabs":
+        return "\tcpu z80\nm\tmacro pp\n%s\n\tendm\n\tm 5+10\n" % line("pp", tabs=True)
+    if shape == "irp":
+        return "\tcpu z80\n\tirp pp,7+8,9\n%s\n\tendm\n" % line("pp")
+    if shape == "rept":
+        return "\tcpu z80\n\trept 2\n%s\n\tendm\n" % line("7", tabs=True)
+    if shape == "call":
+        return "\tcpu z80\nm\tmacro a,b\n\tdb a\n\tendm\n%s\n" % line("9", lead="\tm ")
+    if shape == "comment":
+        return "\tcpu z80\n\tnop ;%s\n\tnop\n" % ("x" * max(0, n - 6))
+    return "\tcpu z80\n\tdb \"%s\"\n" % ("s" * max(0, n - 6))
+
+
 # ------------------------------------------------------------------ symbol faults in golden sources (E11)
 _IDENT = re.compile(rb"[A-Za-z_][A-Za-z0-9_]{2,}")
 
@@ -490,6 +521,9 @@ def plan(tier, seed):
                 cases.append({"gen": "symfault", "test": t.name, "lo": lo, "hi": min(npos, lo + 250)})
         else:
             cases.append({"gen": "symfault", "test": t.name, "sample": 20, "seed": mix(seed, "symf", t.name)})
+    # E12 one line of critical length per program, in eight contexts
+    for sh in LL_SHAPES:
+        cases.append({"gen": "longline", "shape": sh})
     # E10 statements that read further files: BINCLUDE offset x length x file size, INCLUDE of odd files
     nfr = len(fileread_cases())
     for lo in range(0, nfr, 150):
@@ -1054,6 +1088,12 @@ def _run_case(sim, case, acc):
                 acc.seen_cls.discard(cls)
                 acc.bump(acc.probes, "hang_ignored_while_or_recursive_macro")
         acc.sample = {"space": "E11 symbol faults", "golden": t.name, "positions": len(pos)}
+    elif g == "longline":
+        for n in LL_LENGTHS:
+            src = longline_source(n, case["shape"])
+            for opts in ([], ["-L", "-P", "-M"]):
+                run_one(sim, acc, "asl", sc_asl(src, opts, cpu=10), "E12 %s line of %d characters" % (case["shape"], n), "line-length")
+        acc.sample = {"space": "E12", "shape": case["shape"], "lengths": len(LL_LENGTHS)}
     elif g == "fileread":
         stmts = fileread_cases()
         extra = {"/w/" + k: v for k, v in list(FR_BLOBS.items()) + list(FR_INCS.items())}
